@@ -21,7 +21,7 @@ CHECKS = {
          'ParseTotal: ClusterTopo.tla enumerates SLOTS/SHARDS replies from 14/13 well-formed and malformed entry templates (length <=2 quick, '
          '<=3 thorough, RESP3 maps and flattened RESP2 form, tls on/off) and parseEndpoint inputs with the group map the client must learn; the '
          'real decoder + parseSlots/parseShards/parseEndpoint are compared under recover.',
-    design_ref='DESIGN.md 4.5, 5 C19; proposed/design_cluster.md',
+    design_ref='DESIGN.md 4.5, 5 C19; design/cluster.md',
     note='Trusted: TLC, fakeredis/clustersim as a stand-in for Redis Cluster (its rules are the environment half of Cluster.tla), the event '
          'abstraction of the simulated nodes. Bounded: one call at a time (only the background refresh is concurrent), 4 slots, 7 nodes, <=2 '
          'topology changes, chains <=3, TLS only in the parser cases. Replica order inside a group is not checked (not a contract).'),
@@ -35,7 +35,7 @@ CHECKS = {
          'batches <=5 members) run against the simulated cluster: result i must be the reply to command i (values embed node and request id), '
          'per-connection events must show each MULTI..EXEC block contiguous on one connection and re-sent whole with ASKING in front when '
          'ASK-redirected; traces validated by ClusterTrace.tla.',
-    design_ref='DESIGN.md 4.5, 5 C20, 7 #14; proposed/design_cluster.md',
+    design_ref='DESIGN.md 4.5, 5 C20, 7 #14; design/cluster.md',
     note='doresultfn is modelled one sub-batch at a time (the interleaving of two goroutines appending to the same retry list is explored at '
          'sub-batch granularity). Connection expiry (ConnLifetime) recovery loops are not modelled.'),
  'C21': dict(
@@ -46,7 +46,7 @@ CHECKS = {
          'with mixed members and with MULTI/EXEC (which the code always sends to the primary); negative configs: predicate ignored, out-of-range '
          'index clamped. The real client is run with address-based selectors; the role of the node that logged each command comes from the '
          'simulated cluster; traces validated by ClusterTrace.tla.',
-    design_ref='DESIGN.md 4.5, 5 C21; proposed/design_cluster.md',
+    design_ref='DESIGN.md 4.5, 5 C21; design/cluster.md',
     note='Cluster part only; standalone and sentinel routing belong to the Standalone/Sentinel specs. Random choices of the code (ReplicaOnly, '
          'default selector) are resolved nondeterministically by the trace spec.'),
  'C31': dict(
@@ -58,7 +58,7 @@ CHECKS = {
          'state in {value, absent, wrong type, server error}; expected per-key entry, whole-call failure and store contents afterwards. The driver '
          'prepares the stores (single fakeredis server; simulated cluster with one store per node, MOVED/CROSSSLOT enforced), runs the real helper '
          'and compares map keys, every entry (values are key specific and read back from the store) and the store afterwards.',
-    design_ref='DESIGN.md 5 C31; proposed/design_cluster.md',
+    design_ref='DESIGN.md 5 C31; design/cluster.md',
     note='For this property TLC is case generator and oracle (input-space exploration); the model-checked part is BatchOrder. Standalone and '
          'sentinel clients share the single-client code path of helper.go and are not run. A command refused at queueing time inside the '
          'client-side-caching transaction makes MGetCache/JsonMGetCache fail as a whole (modelled as such).'),
